@@ -594,6 +594,18 @@ def _f80(vio):
     return vio.get("kind", "").startswith("layoutbuilder-") or vio.get("kind") in ("process-death", "hang")
 
 
+@mechanism("F82-lazy-reduce-through-records")
+def _f82(vio):
+    """reducers on option-type / indexed data whose content is a virtual RecordArray: the lazy carry leaves an
+    IndexedArray64 in the way and IndexedArray::reduce_next refuses the RecordArray it gets back"""
+    det = vio.get("detail") or {}
+    if vio.get("kind") != "lazy-outcome-differs" or _op_of(vio).get("op") != "reduce":
+        return False
+    msg = ((det.get("lazy") or {}).get("msg") or "")
+    return "reduce_next with unbranching depth > negaxis is only expected to return" in msg and \
+        _has_class(vio, ("RecordArray",))
+
+
 @mechanism("F10-reduce-nonlocal")
 def _f10(vio):
     rep = _report(vio)
